@@ -96,3 +96,22 @@ Theorem C09_stability_table_real : forall W F s dth, qn2 (s_q s) = 1 ->
       (central (dth * (PI / 180)) (F sa_p) (F sa_m), central (dth * (PI / 180)) (F sb_p) (F sb_m)).
 Proof. intros W F. exact (C09_stability_table cos sin tan atan asin Ratan2 r2d W F okA_real HA_real). Qed.
 Print Assumptions C09_stability_table_real.
+
+(* "control input per radian ... with everything else held fixed", when the control is set as a span-wise table of deflections (documented:
+   float or array): the step is added to the deflections and to nothing else (Model/Controls.v shift_input, Proofs/ShiftP.v; fix 52ecd5c) -
+   every section inside the control surface sees its input moved by exactly the step, the span column is unchanged so the surface's
+   end-point test accepts the perturbed table exactly when it accepts the table; adding the step to both columns, as the pinned snapshot
+   did, makes that test reject every accepted table for every non-zero step *)
+From MuxV Require Import Model.Controls Proofs.ShiftP.
+Theorem C09_control_step_on_input : forall (c : cinput R) d root tip s,
+  (match c with CTable tbl => tbl <> [] | _ => True end) ->
+  input_at (shift_input c d) true s = input_at c true s + d /\
+  table_ends_ok root tip (shift_input c d) = table_ends_ok root tip c.
+Proof. intros c d root tip s H. split; [exact (input_at_shift c d s H) | exact (shift_keeps_ends c d root tip)]. Qed.
+Print Assumptions C09_control_step_on_input.
+Theorem C09_step_on_both_columns_refuted : forall d root tip tbl, d <> 0 ->
+  table_ends_ok root tip (CTable tbl) = true -> table_ends_ok root tip (CTable (shift_both d tbl)) = false.
+Proof. exact shift_both_rejected. Qed.
+Print Assumptions C09_step_on_both_columns_refuted.
+Example C09_control_step_nonvacuous : table_ends_ok 0.3 0.8 (CTable [(0.3, 2); (0.8, 4)]) = true /\ [(0.3, 2); (0.8, 4)] <> @nil (R * R).
+Proof. split; [|discriminate]. cbn [table_ends_ok last fst]. change (@neqb R RNum) with Reqb. apply andb_true_intro; split; apply Reqb_true; reflexivity. Qed.
